@@ -93,11 +93,11 @@ theorem pairQuiescent_closed {j : PairJ} (h : j.closed = true) : pairQuiescent j
 
 theorem judge_close {V : Variant} {v1 : Bool} {sS sR : List Bytes} {s : State} {j : PairJ}
     (hR : R' V v1 sS sR s j) (o1 : List Out) (h1 : ∀ x ∈ o1, isPc x = true) :
-    (pairStep j .close (o1 ++ ((s.raq.map fun pk => Out.done pk.aio Err.eclosed none false) ++
+    (pairStepOld j .close (o1 ++ ((s.raq.map fun pk => Out.done pk.aio Err.eclosed none false) ++
         (s.waq.map fun pk => Out.done pk.aio Err.eclosed none true)))).err = none ∧
-    (pairStep j .close (o1 ++ ((s.raq.map fun pk => Out.done pk.aio Err.eclosed none false) ++
+    (pairStepOld j .close (o1 ++ ((s.raq.map fun pk => Out.done pk.aio Err.eclosed none false) ++
         (s.waq.map fun pk => Out.done pk.aio Err.eclosed none true)))).closed = true ∧
-    (pairStep j .close (o1 ++ ((s.raq.map fun pk => Out.done pk.aio Err.eclosed none false) ++
+    (pairStepOld j .close (o1 ++ ((s.raq.map fun pk => Out.done pk.aio Err.eclosed none false) ++
         (s.waq.map fun pk => Out.done pk.aio Err.eclosed none true)))).racing = false := by
   have hR0 := hR.1
   have hP0 := hR0.toP
@@ -169,7 +169,7 @@ theorem judge_close {V : Variant} {v1 : Bool} {sS sR : List Bytes} {s : State} {
 
 theorem ev_close {V : Variant} {v1 : Bool} {sS sR : List Bytes} {s : State} {j : PairJ}
     (hR : R' V v1 sS sR s j) (ho : s.opened = true) :
-    Rc (stepLive V s .close).1 (pairStep j .close (stepLive V s .close).2) := by
+    Rc (stepLive V s .close).1 (pairStepOld j .close (stepLive V s .close).2) := by
   obtain ⟨c1, _, c3, c4, c5⟩ := closeAll_frame s
   rw [stepLive_close, c3, c4]
   obtain ⟨e1, e2, e3⟩ := judge_close hR (closeAllPipes s).2 c5
